@@ -45,16 +45,21 @@ type kvAddData struct {
 // AddVertex adds an edge to the graph, if it already exists
 // in the graph, it is replaced
 func (kgdb *KVInterfaceGDB) AddVertex(vertices []*gdbi.Vertex) error {
+	inserted := 0
 	err := kgdb.kvg.kv.BulkWrite(func(tx kvi.KVBulkWrite) error {
 		var bulkErr *multierror.Error
 		for _, vert := range vertices {
 			if err := insertVertex(tx, kgdb.kvg.idx, kgdb.graph, vert.ToVertex()); err != nil {
 				bulkErr = multierror.Append(bulkErr, err)
+			} else {
+				inserted++
 			}
 		}
-		kgdb.kvg.ts.Touch(kgdb.graph)
 		return bulkErr.ErrorOrNil()
 	})
+	if inserted > 0 {
+		kgdb.kvg.ts.Touch(kgdb.graph)
+	}
 	return err
 }
 
@@ -120,38 +125,51 @@ func insertEdge(tx kvi.KVBulkWrite, idx *kvindex.KVIndex, graph string, edge *gr
 // AddEdge adds an edge to the graph, if the id is not "" and in already exists
 // in the graph, it is replaced
 func (kgdb *KVInterfaceGDB) AddEdge(edges []*gdbi.Edge) error {
+	inserted := 0
 	err := kgdb.kvg.kv.BulkWrite(func(tx kvi.KVBulkWrite) error {
 		var bulkErr *multierror.Error
 		for _, edge := range edges {
 			if err := insertEdge(tx, kgdb.kvg.idx, kgdb.graph, edge.ToEdge()); err != nil {
 				bulkErr = multierror.Append(bulkErr, err)
+			} else {
+				inserted++
 			}
 		}
-		kgdb.kvg.ts.Touch(kgdb.graph)
 		return bulkErr.ErrorOrNil()
 	})
+	if inserted > 0 {
+		kgdb.kvg.ts.Touch(kgdb.graph)
+	}
 	return err
 }
 
 func (kgdb *KVInterfaceGDB) BulkAdd(stream <-chan *gdbi.GraphElement) error {
+	inserted := 0
 	err := kgdb.kvg.kv.BulkWrite(func(tx kvi.KVBulkWrite) error {
 		var bulkErr *multierror.Error
 		for elem := range stream {
 			if elem.Vertex != nil {
 				if err := insertVertex(tx, kgdb.kvg.idx, kgdb.graph, elem.Vertex.ToVertex()); err != nil {
 					bulkErr = multierror.Append(bulkErr, err)
+				} else {
+					inserted++
 				}
 				continue
 			}
 			if elem.Edge != nil {
 				if err := insertEdge(tx, kgdb.kvg.idx, kgdb.graph, elem.Edge.ToEdge()); err != nil {
 					bulkErr = multierror.Append(bulkErr, err)
+				} else {
+					inserted++
 				}
 				continue
 			}
 		}
 		return bulkErr.ErrorOrNil()
 	})
+	if inserted > 0 {
+		kgdb.kvg.ts.Touch(kgdb.graph)
+	}
 	return err
 }
 
